@@ -69,6 +69,12 @@ def run(ctx, replay=None):
                              ('S', b'', b' ', b'a', b'', b''), ('E', b'', b'a', b'', b'', b'', [('R', b'a'), ('R', b'a.'), ('L', b'3')]),
                              ('E', b'', b'b', b'', b'', b'', [('R', b'a.a'), ('V', b'HOME'), ('V', b'QV_UNSET')]), ('S', b'', b'', b'', b'', b''),
                              ('E', b'', b'c', b'', b'', b'', [('R', b'a.b'), ('R', b'a')])]))
+    # the same section header again while that section is current (with and without blanks inside the brackets), and back to back
+    E1 = lambda k, v: ('E', b'', k, b'', b'', b'', [('L', v)])
+    docs.append((61, False, [('S', b'', b'', b'net', b'', b''), E1(b'a', b'1'), ('S', b'', b' ', b'net', b' ', b''), E1(b'b', b'2'),
+                             ('S', b'', b'', b'net', b'', b''), ('S', b'', b'', b'net', b'', b''), E1(b'c', b'3')]))
+    docs.append((61, False, [('S', b'', b'', b's', b'', b''), ('S', b'', b'', b's', b'', b''), E1(b'k', b'v'), ('S', b'', b'', b't', b'', b''),
+                             ('S', b'', b'', b's', b'', b''), E1(b'k', b'w')]))
     spec_ops = [enc_ini_doc(*d) for d in docs]
     sl, err = run_model(ctx, env_ops() + spec_ops)
     if err:
